@@ -102,7 +102,9 @@ type Exec struct {
 	forced  []bool
 	newWork [][]int64
 	cons    []*Term // every constraint assumed on this path, in order
-	general []*Term // those that are not single-byte constraints
+	general []*Term // those that are neither single-byte constraints nor clauses of single-byte literals
+	clauses []*clause
+	bins    []*bin2 // constraints over exactly two byte variables, as truth tables
 	genVars map[*Term]bool
 	dom     map[*Term]*[4]uint64
 	inputs  []*inputVar
@@ -137,10 +139,23 @@ type Exec struct {
 	notes      []string
 	panicTrace []string
 	stubsUsed  map[string]bool
+	fixed      map[string]int
+	deadline   time.Time
+	symMaps    map[uintptr][]symMapEntry
+	curInstr   ssa.Instruction
+	lastBoth   bool
 	races      []string
 }
 
 var cur *Exec
+
+var logZ3 = os.Getenv("SYMGO_LOGZ3") != ""
+
+func (e *Exec) checkDeadline() {
+	if !e.deadline.IsZero() && time.Now().After(e.deadline) {
+		e.abort("budget", "wall-clock budget exhausted inside a path")
+	}
+}
 
 func (e *Exec) abort(kind, msg string) {
 	panic(pathAbort{kind, msg})
@@ -179,6 +194,14 @@ func (e *Exec) addConstraint(c *Term) {
 		e.dom[c.uvar] = &d
 		return
 	}
+	if lits, ok := toLits(e.ctx, c, nil); ok {
+		e.clauses = append(e.clauses, &clause{lits: lits, term: c})
+		return
+	}
+	if c.IsBinary8() {
+		e.bins = append(e.bins, &bin2{a: c.uvar, b: c.uvar2, tab: c.Table2(), term: c})
+		return
+	}
 	e.general = append(e.general, c)
 	seen := map[*Term]bool{}
 	var vs []*Term
@@ -188,105 +211,312 @@ func (e *Exec) addConstraint(c *Term) {
 	}
 }
 
-// fast tries to decide satisfiability of (pc ∧ c) with the bitset procedure.
-// ok=false means "cannot tell".
+// ---- finite-domain procedure: per-variable 256-bit domains plus clauses of single-byte literals
+
+type lit struct {
+	v     *Term
+	truth [4]uint64
+}
+
+type clause struct {
+	lits []lit
+	term *Term
+}
+
+// toLits converts t into a disjunction of single-byte literals, if it has that shape.
+func toLits(ctx *TermCtx, t *Term, out []lit) ([]lit, bool) {
+	if t.IsConst() {
+		if t.Val != 0 {
+			return nil, false // trivially true clause: caller should not ask
+		}
+		return out, true
+	}
+	if t.IsUnary8() {
+		return append(out, lit{t.uvar, *t.TruthSet()}), true
+	}
+	switch t.Op {
+	case OpBOr:
+		var ok bool
+		if out, ok = toLits(ctx, t.Args[0], out); !ok {
+			return nil, false
+		}
+		return toLits(ctx, t.Args[1], out)
+	case OpNot:
+		if t.Args[0].Op == OpBAnd {
+			for _, a := range flattenAnd(t.Args[0], nil) {
+				var ok bool
+				if out, ok = toLits(ctx, ctx.Not(a), out); !ok {
+					return nil, false
+				}
+			}
+			return out, true
+		}
+	}
+	return nil, false
+}
+
+// bin2 is a constraint over two byte variables: tab[x] is the set of b values allowed when a == x.
+type bin2 struct {
+	a, b *Term
+	tab  *[256][4]uint64
+	term *Term
+}
+
+type fdState struct {
+	bins    []*bin2
+	dom     map[*Term][4]uint64
+	e       *Exec
+	steps   int
+	gaveUp  bool
+}
+
+func (st *fdState) get(v *Term) [4]uint64 {
+	if d, ok := st.dom[v]; ok {
+		return d
+	}
+	return *st.e.domOf(v)
+}
+
+// propagate applies unit propagation; returns false on conflict. remaining receives unresolved clauses.
+func (st *fdState) propagate(cls []*clause) ([]*clause, bool) {
+	for {
+		changed := false
+		var rest []*clause
+		for _, c := range cls {
+			npos := 0
+			var last lit
+			sat := false
+			for _, l := range c.lits {
+				d := st.get(l.v)
+				in := setAnd(&d, &l.truth)
+				if setEmpty(&in) {
+					continue
+				}
+				out := setAndNot(&d, &l.truth)
+				if setEmpty(&out) {
+					sat = true
+					break
+				}
+				npos++
+				last = l
+			}
+			if sat {
+				continue
+			}
+			if npos == 0 {
+				return nil, false
+			}
+			if npos == 1 {
+				d := st.get(last.v)
+				st.dom[last.v] = setAnd(&d, &last.truth)
+				changed = true
+				continue
+			}
+			rest = append(rest, c)
+		}
+		cls = rest
+		// arc consistency on the binary tables
+		for _, bc := range st.bins {
+			da, db := st.get(bc.a), st.get(bc.b)
+			var na, supB [4]uint64
+			for x := 0; x < 256; x++ {
+				if !setHas(&da, x) {
+					continue
+				}
+				row := setAnd(&bc.tab[x], &db)
+				if setEmpty(&row) {
+					continue
+				}
+				na[x>>6] |= 1 << (uint(x) & 63)
+				supB[0] |= row[0]
+				supB[1] |= row[1]
+				supB[2] |= row[2]
+				supB[3] |= row[3]
+			}
+			if setEmpty(&na) {
+				return nil, false
+			}
+			if na != da {
+				st.dom[bc.a] = na
+				changed = true
+			}
+			if supB != db {
+				st.dom[bc.b] = supB
+				changed = true
+			}
+		}
+		if !changed {
+			return cls, true
+		}
+	}
+}
+
+func (st *fdState) solve(cls []*clause) bool {
+	st.steps++
+	if st.steps > 2000 {
+		st.gaveUp = true
+		return false
+	}
+	cls, ok := st.propagate(cls)
+	if !ok {
+		return false
+	}
+	if len(cls) == 0 {
+		return true
+	}
+	// branch on the shortest clause
+	best := cls[0]
+	for _, c := range cls[1:] {
+		if len(c.lits) < len(best.lits) {
+			best = c
+		}
+	}
+	for _, l := range best.lits {
+		d := st.get(l.v)
+		in := setAnd(&d, &l.truth)
+		if setEmpty(&in) {
+			continue
+		}
+		saved := make(map[*Term][4]uint64, len(st.dom))
+		for k, v := range st.dom {
+			saved[k] = v
+		}
+		st.dom[l.v] = in
+		if st.solve(cls) {
+			return true
+		}
+		if st.gaveUp {
+			return false
+		}
+		st.dom = saved
+	}
+	return false
+}
+
+// fast tries to decide satisfiability of (pc ∧ c) with the finite-domain procedure.
+// ok=false means "cannot tell" (the caller then asks z3).
 func (e *Exec) fast(c *Term) (sat bool, ok bool) {
 	if c.IsConst() {
 		return c.Val != 0, true
 	}
-	if c.IsUnary8() {
-		d := setAnd(e.domOf(c.uvar), c.TruthSet())
-		if setEmpty(&d) {
-			return false, true
+	st := &fdState{dom: map[*Term][4]uint64{}, e: e}
+	var newCls []*clause
+	touched := map[*Term]bool{}
+	for _, part := range flattenAnd(c, nil) {
+		if part.IsUnary8() {
+			d := st.get(part.uvar)
+			st.dom[part.uvar] = setAnd(&d, part.TruthSet())
+			touched[part.uvar] = true
+			continue
 		}
-		if !e.genVars[c.uvar] {
-			return true, true
-		}
-		return false, false
-	}
-	switch c.Op {
-	case OpBOr:
-		s0, ok0 := e.fast(c.Args[0])
-		if ok0 && s0 {
-			return true, true
-		}
-		s1, ok1 := e.fast(c.Args[1])
-		if ok1 && s1 {
-			return true, true
-		}
-		if ok0 && ok1 {
-			return false, true
-		}
-		return false, false
-	case OpBAnd:
-		// sound only when the conjuncts constrain disjoint variables not touched by general constraints
-		atoms := flattenAnd(c, nil)
-		used := map[*Term]bool{}
-		for _, a := range atoms {
-			if !a.IsUnary8() || used[a.uvar] {
-				// conjuncts on the same variable: combine
-				return e.fastAndSameVar(atoms)
+		lits, isCl := toLits(e.ctx, part, nil)
+		if !isCl {
+			if part.IsBinary8() {
+				st.bins = append(st.bins, &bin2{a: part.uvar, b: part.uvar2, tab: part.Table2(), term: part})
+				touched[part.uvar], touched[part.uvar2] = true, true
+				continue
 			}
-			used[a.uvar] = true
-		}
-		all := true
-		for _, a := range atoms {
-			s, ok := e.fast(a)
-			if ok && !s {
-				return false, true
-			}
-			if !ok {
-				all = false
-			}
-		}
-		if all {
-			return true, true
-		}
-		return false, false
-	case OpNot:
-		// not(and(...)) = or(not ...)
-		in := c.Args[0]
-		if in.Op == OpBAnd {
-			atoms := flattenAnd(in, nil)
-			allKnown := true
-			for _, a := range atoms {
-				s, ok := e.fast(e.ctx.Not(a))
-				if ok && s {
-					return true, true
-				}
-				if !ok {
-					allKnown = false
-				}
-			}
-			if allKnown {
-				return false, true
-			}
-		}
-	}
-	return false, false
-}
-
-func (e *Exec) fastAndSameVar(atoms []*Term) (bool, bool) {
-	// group unary atoms per variable; anything non-unary → unknown
-	per := map[*Term][4]uint64{}
-	for _, a := range atoms {
-		if !a.IsUnary8() {
 			return false, false
 		}
-		d, ok := per[a.uvar]
-		if !ok {
-			d = *e.domOf(a.uvar)
+		for _, l := range lits {
+			touched[l.v] = true
 		}
-		d = setAnd(&d, a.TruthSet())
-		per[a.uvar] = d
+		newCls = append(newCls, &clause{lits: lits, term: part})
 	}
-	for v, d := range per {
+	for v, d := range st.dom {
 		if setEmpty(&d) {
+			_ = v
 			return false, true
 		}
+	}
+	// clauses connected to the touched variables
+	cls := newCls
+	used := make([]bool, len(e.clauses))
+	usedB := make([]bool, len(e.bins))
+	for changed := true; changed; {
+		changed = false
+		for i, bc := range e.bins {
+			if !usedB[i] && (touched[bc.a] || touched[bc.b]) {
+				usedB[i] = true
+				changed = true
+				st.bins = append(st.bins, bc)
+				touched[bc.a], touched[bc.b] = true, true
+			}
+		}
+		for i, cl := range e.clauses {
+			if used[i] {
+				continue
+			}
+			hit := false
+			for _, l := range cl.lits {
+				if touched[l.v] {
+					hit = true
+					break
+				}
+			}
+			if hit {
+				used[i] = true
+				changed = true
+				cls = append(cls, cl)
+				for _, l := range cl.lits {
+					touched[l.v] = true
+				}
+			}
+		}
+	}
+	hard := false
+	for v := range touched {
 		if e.genVars[v] {
-			return false, false
+			hard = true
 		}
+	}
+	// merge tables on the same pair; arc consistency is complete only for acyclic constraint graphs
+	if len(st.bins) > 1 {
+		merged := map[[2]*Term]*bin2{}
+		var order []*bin2
+		for _, bc := range st.bins {
+			k := [2]*Term{bc.a, bc.b}
+			if m, ok := merged[k]; ok {
+				nt := new([256][4]uint64)
+				for x := 0; x < 256; x++ {
+					nt[x] = setAnd(&m.tab[x], &bc.tab[x])
+				}
+				m.tab = nt
+			} else {
+				cp := *bc
+				merged[k] = &cp
+				order = append(order, &cp)
+			}
+		}
+		st.bins = order
+		parent := map[*Term]*Term{}
+		var find func(v *Term) *Term
+		find = func(v *Term) *Term {
+			if p, ok := parent[v]; ok && p != v {
+				r := find(p)
+				parent[v] = r
+				return r
+			}
+			parent[v] = v
+			return v
+		}
+		for _, bc := range st.bins {
+			ra, rb := find(bc.a), find(bc.b)
+			if ra == rb {
+				hard = true // cycle: a positive answer is not conclusive
+			}
+			parent[ra] = rb
+		}
+	}
+	res := st.solve(cls)
+	if st.gaveUp {
+		return false, false
+	}
+	if !res {
+		return false, true // adding the hard constraints can only shrink the solution set
+	}
+	if hard {
+		return false, false
 	}
 	return true, true
 }
@@ -313,11 +543,21 @@ func (e *Exec) relevant(goal *Term) []*Term {
 		vars []*Term
 		used bool
 	}
-	gcs := make([]gc, len(e.general))
-	for i, c := range e.general {
+	gcs := make([]gc, 0, len(e.general)+len(e.clauses))
+	for _, c := range e.general {
 		var vs []*Term
 		CollectVars(c, map[*Term]bool{}, &vs)
-		gcs[i] = gc{t: c, vars: vs}
+		gcs = append(gcs, gc{t: c, vars: vs})
+	}
+	for _, cl := range e.clauses {
+		vs := make([]*Term, len(cl.lits))
+		for i, l := range cl.lits {
+			vs[i] = l.v
+		}
+		gcs = append(gcs, gc{t: cl.term, vars: vs})
+	}
+	for _, bc := range e.bins {
+		gcs = append(gcs, gc{t: bc.term, vars: []*Term{bc.a, bc.b}})
 	}
 	changed := true
 	var out []*Term
@@ -362,6 +602,13 @@ func (e *Exec) feasible(c *Term) SatResult {
 	}
 	e.stats.SolverDecided++
 	cons := append(e.relevant(c), c)
+	if logZ3 {
+		str := c.String()
+		if len(str) > 300 {
+			str = str[:300] + "..."
+		}
+		fmt.Fprintf(os.Stderr, "Z3? nvars=%d cons=%d %s\n", c.nvars, len(cons), str)
+	}
 	r, _, _ := e.solver.Check(cons, e.dom, nil)
 	return r
 }
@@ -418,6 +665,7 @@ func (e *Exec) Branch(c *Term) bool {
 	}
 	switch {
 	case ft == Sat && ff == Sat:
+		e.lastBoth = true
 		e.record(0, false, []int64{1})
 		e.addConstraint(c)
 		return true
@@ -493,6 +741,9 @@ func (e *Exec) Concretize(t *Term) uint64 {
 		return v
 	}
 	var vals []uint64
+	if logZ3 && e.curInstr != nil {
+		fmt.Fprintf(os.Stderr, "CONC at %s in %s: %s\n", e.posStr(e.curInstr.Pos()), e.curInstr.Parent().String(), e.curInstr.String())
+	}
 	if t.IsUnary8() && !e.genVars[t.uvar] {
 		tab := t.ValTable()
 		d := e.domOf(t.uvar)
@@ -500,7 +751,9 @@ func (e *Exec) Concretize(t *Term) uint64 {
 		for x := 0; x < 256; x++ {
 			if setHas(d, x) && !seen[tab[x]] {
 				seen[tab[x]] = true
-				vals = append(vals, tab[x])
+				if (len(e.clauses) == 0 && len(e.bins) == 0) || e.feasible(e.ctx.Eq(t, e.ctx.Const(t.W, tab[x]))) == Sat {
+					vals = append(vals, tab[x])
+				}
 			}
 		}
 		e.stats.UnaryDecided++
@@ -508,6 +761,7 @@ func (e *Exec) Concretize(t *Term) uint64 {
 		// enumerate by blocking
 		cons := e.relevant(t)
 		for {
+			e.checkDeadline()
 			e.stats.SolverDecided++
 			probe := e.ctx.Var("conc!probe", t.W)
 			q := append(append([]*Term{}, cons...), e.ctx.Eq(probe, t))
@@ -589,7 +843,18 @@ func (e *Exec) MayPanic(ok *Term, kind string, pos token.Pos) {
 	if ok.IsConst() && ok.Val == 1 {
 		return
 	}
-	if !e.Branch(ok) {
+	fresh := len(e.trail) >= len(e.prefix)
+	e.lastBoth = false
+	taken := e.Branch(ok)
+	if fresh {
+		// a run-time check of the interpreted program is an obligation; it is discharged when the
+		// failing side is infeasible (otherwise the sibling path panics and is reported there)
+		e.stats.Obligations++
+		if taken && !e.lastBoth {
+			e.stats.Discharged++
+		}
+	}
+	if !taken {
 		panic(targetRuntimePanic{kind: kind, pos: e.posStr(pos)})
 	}
 }
@@ -617,7 +882,7 @@ func (e *Exec) recordFinding(kind, label, pos string, extra *Term) {
 		return
 	}
 	// full model of pc ∧ extra over all inputs
-	cons := append([]*Term{}, e.general...)
+	cons := e.allGeneral()
 	if extra != nil && !extra.IsConst() {
 		cons = append(cons, extra)
 	}
@@ -720,4 +985,16 @@ func debugf(format string, args ...interface{}) {
 	if os.Getenv("SYMGO_DEBUG") != "" {
 		fmt.Fprintf(os.Stderr, format+"\n", args...)
 	}
+}
+
+// allGeneral returns every constraint that is not captured by the per-variable domains.
+func (e *Exec) allGeneral() []*Term {
+	cons := append([]*Term{}, e.general...)
+	for _, cl := range e.clauses {
+		cons = append(cons, cl.term)
+	}
+	for _, bc := range e.bins {
+		cons = append(cons, bc.term)
+	}
+	return cons
 }
